@@ -1137,7 +1137,10 @@ impl Session {
                 buffer = buffer.split_off(size);
             } else if remain_payload_len > 0 {
                 // This packet contains payload + padding
-                let padding_len = size.saturating_sub(remain_payload_len + HEADER_OVERHEAD_SIZE);
+                // A padding frame carries at most 65535 bytes (u16 length field).
+                let padding_len = size
+                    .saturating_sub(remain_payload_len + HEADER_OVERHEAD_SIZE)
+                    .min(u16::MAX as usize);
 
                 if padding_len > 0 {
                     // Create padding frame (cmdWaste)
@@ -1159,6 +1162,8 @@ impl Session {
                 buffer.clear();
             } else {
                 // This packet is all padding
+                // (a padding frame carries at most 65535 bytes: u16 length field)
+                let size = size.min(u16::MAX as usize);
                 let mut padding_frame = BytesMut::with_capacity(HEADER_OVERHEAD_SIZE + size);
                 padding_frame.put_u8(Command::Waste as u8);
                 padding_frame.put_u32(0); // stream_id = 0
